@@ -97,13 +97,13 @@ def jobs(tier, seed):
         }
         return {"kind": kind, "rows": rows, "fixed": fixed, "sym": [list(s) for s in sym], "conc": conc, "supply": list(fixed), "extra_value": False, "x_in_values": False}
 
-    reps = 3 if tier == "quick" else 12
+    reps = 3 if tier == "quick" else 8
     for name, rows, fixed in CURATED:
         for _ in range(reps):
             out.append(finish("curated:" + name, [dict(r) for r in rows], list(fixed)))
         # all row constants symbolic (up to the budget): the shape of the polygon is solver-explored
         out.append(finish("curated:" + name, [dict(r) for r in rows], list(fixed), force_sym=[("c", i) for i in range(min(budget, len(rows)))]))
-    n = 70 if tier == "quick" else 1500
+    n = 70 if tier == "quick" else 1000
     for i in range(n):
         fixed = rng.choice([[], [], ["z"], ["z"], ["z", "w"]])
         rows = _rand_rows(rng, alphabet, fixed, rng.choice([1, 2, 2, 3, 3, 4] + ([5] if tier == "thorough" else [])))
